@@ -1,5 +1,5 @@
 """property -> rules registry (claimed properties only)"""
-from . import rules_bounds, rules_state, rules_arith, rules_except, rules_guard, rules_slice, rules_types, rules_dep, rules_order, rules_cache, rules_assume, rules_extra
+from . import rules_bounds, rules_state, rules_arith, rules_except, rules_guard, rules_slice, rules_types, rules_dep, rules_order, rules_cache, rules_assume, rules_extra, rules_lemma
 
 RULES = {
     "P1": rules_state.rule_P1,
@@ -44,6 +44,7 @@ RULES = {
     "N6": rules_arith.rule_N6,
     "P4": rules_state.rule_P4,
     "T2": rules_types.rule_T2,
+    "A2": rules_lemma.rule_A2,
 }
 
 SELFTESTS = {"T1": rules_types.selftest_T1}
@@ -52,7 +53,7 @@ PROPS = {
     "C02": {
         "id": "C02",
         "title": "Inverse transforms invert the forward transforms",
-        "rules": ["A1b", "A1", "G7"],
+        "rules": ["A1b", "A1", "G7", "A2"],
         "clause": "every even n accepted by irfft/IfftPlanR satisfies what the twiddle-table helper believes about n, and odd n is "
                   "rejected by exception before any table is sized or indexed (member initialisers included)",
         "not_decided": "the inversion identities ifft(fft(x)) = x, irfft(rfft(x)) = x as numerics; everything about stft/istft",
@@ -92,7 +93,7 @@ PROPS = {
     "C05": {
         "id": "C05",
         "title": "No call corrupts memory or hangs: misuse is reported by exception",
-        "rules": ["G1", "G2", "G3", "G5", "G6", "E1", "A1", "Z1", "Z2", "D2", "G7", "N4"],
+        "rules": ["G1", "G2", "G3", "G5", "G6", "E1", "A1", "Z1", "Z2", "D2", "G7", "N4", "A2"],
         "clause": "guard completeness (mechanisms 1-3 of the anchors): every plan solve() checks the input length with a live "
                   "check before mixing it with plan tables; every foreign-bound subscript and caller-supplied index in a public "
                   "function is dominated by a live relating guard; slices are range-checked at creation and count-checked at "
